@@ -64,7 +64,7 @@ def cases(tier):
         out.append({"id": f"contract/E1-PF-{lvl}/p0", "what": "contract", "world": w, "who": "p0", "final": "Label"})
     # ---- contraction of concrete density matrices (goes through the numeric eigh) -------------------------------------
     for who in ("p0", "f0", "c0", "env", "ps"):
-        for st in ("maxmixed", "mixed-diag", "mixed-complex", "pure-plus", "pure-minus", "pure-basis"):
+        for st in ("maxmixed", "mixed-diag", "mixed-complex", "pure-plus", "pure-minus", "pure-basis", "nearly-pure"):
             out.append({"id": f"contract-concrete/{who}/{st}", "what": "concrete", "who": who, "state": st})
     # ---- twin runs with contraction on ------------------------------------------------------------------------
     from harness import C01, C06
@@ -105,6 +105,14 @@ def cases(tier):
             d["id"], d["what"], d["base"] = "twin/C06/" + c["id"], "twin", "C06"
             out.append(d)
     return out
+
+
+def _cnum(B, x):
+    if B.mode == "real":
+        return complex(x)
+    from symx import core
+
+    return complex(core.SC.lift(x))
 
 
 def _with_contraction(c):
@@ -202,7 +210,17 @@ def _concrete(B, case):
            "mixed-complex": None,
            "pure-plus": None,
            "pure-minus": None,
+           "nearly-pure": None,
            "pure-basis": np.diag([0.0, 1.0] + [0.0] * (d - 2))}[st]
+    if st == "nearly-pure":
+        # purity 1 - 5e-6: inside the band where differently written closeness tests (absolute 1e-6 vs isclose with its
+        # default relative tolerance) disagree; whatever the implementation decides, the state must survive
+        v = np.zeros((d, 1), dtype=complex)
+        v[0, 0], v[1, 0] = 0.6, 0.8j
+        w_ = np.zeros((d, 1), dtype=complex)
+        w_[0, 0], w_[1, 0] = 0.8, -0.6j
+        eps = 2.5e-6
+        rho = (1 - eps) * (v @ v.conj().T) + eps * (w_ @ w_.conj().T)
     if st == "pure-minus":  # real amplitudes with a relative sign, first component non-zero
         v = np.zeros((d, 1), dtype=complex)
         v[0, 0], v[1, 0] = 0.6, -0.8
@@ -233,6 +251,17 @@ def _concrete(B, case):
     else:
         obj.contract(final=EL.Vector)
     post = W.snapshot()
+    if st == "nearly-pure":
+        members = list(post.block_of(W.sub(who) if who in ("c0", "f0") else W.sub("p0")).members)
+        r0, _ = pre.joint(members)
+        r1, _ = post.joint(members)
+        a0 = np.array([[complex(_cnum(B, x)) for x in row] for row in r0])
+        a1 = np.array([[complex(_cnum(B, x)) for x in row] for row in r1])
+        fid = float(np.real(np.trace(a0 @ a1)))
+        B.require_structural(fid >= 1 - 1e-4, "C08: contract() of a nearly pure state (purity 1 - 5e-6) returned a state that is "
+                                              "not the one held before", detail={"overlap": fid})
+        checks.check_wf(B, W, post, "C08/contract-concrete wf", unit=False)
+        return
     checks.compare_unchanged(B, W, pre, post, f"C08/contract of a concrete {st} state")
     checks.check_wf(B, W, post, "C08/contract-concrete wf", unit=True)
     b1 = post.block_of(W.sub(who) if who in ("c0", "f0") else W.sub("p0"))
